@@ -44,6 +44,7 @@ func sqlFragments(v ssa.Value) (frags []string, dyn []ssa.Value) {
 }
 
 func runC14(c *Ctx) {
+	c14Probe(c)
 	isSrc := func(v ssa.Value) bool {
 		// handle derived from DB.db: directly, or a Tx/Conn obtained from it, or the tracked read tx
 		seen := map[ssa.Value]bool{}
@@ -518,4 +519,32 @@ func isSourcePathExact(v ssa.Value) bool {
 		}
 	}
 	return true
+}
+
+
+// c14Probe (R5): the directory watcher probes a file's header by opening and closing
+// it.  On a database litestream already replicates, that close drops the POSIX
+// locks of litestream's own SQLite connections (same hazard as R3's single
+// descriptor), so the probe may run only for paths that are not tracked yet.
+func c14Probe(c *Ctx) {
+	const rule = "R5-header-probe-only-for-untracked-paths"
+	fn := c.fn(rule, "(*ls/cmd/litestream.DirectoryMonitor).handlePotentialDatabase")
+	if fn == nil {
+		return
+	}
+	tracked := truthFact(func(v ssa.Value) bool {
+		ex, ok := v.(*ssa.Extract)
+		if !ok || ex.Index != 1 {
+			return false
+		}
+		lk, ok := ex.Tuple.(*ssa.Lookup)
+		return ok && lk.CommaOk && vFieldLoad("DirectoryMonitor.dbs", nil)(lk.X)
+	}, false, "path not in dm.dbs")
+	n := 0
+	for _, vs := range callSitesV(fn, nameIs("ls/cmd/litestream.IsSQLiteDatabase")) {
+		n++
+		vs.Desc = "IsSQLiteDatabase(path) (open+close of the file)"
+		c.requireGuardV(rule, fn, vs, tracked)
+	}
+	c.floor(rule, n, 1, "header probes in handlePotentialDatabase")
 }
